@@ -2,7 +2,8 @@
 """seed_prompt.py <ID>: prints the prompt given to a seeding sub-agent (property text + worktree path only)."""
 import json, sys
 ID = sys.argv[1]
-BATCH2 = len(sys.argv) > 2 and sys.argv[2] == 'batch2'
+BATCH2 = len(sys.argv) > 2 and sys.argv[2] in ('batch2', 'batch3')
+A, B = ('m5', 'm6') if (len(sys.argv) > 2 and sys.argv[2] == 'batch3') else ('m3', 'm4')
 prop = [json.loads(l) for l in open('/verif/properties.jsonl') if json.loads(l)['id'] == ID][0]
 text = (f"""You are helping test a verification effort for the Go project zllovesuki/specter (a reverse-tunnel overlay network whose edge nodes form a Chord DHT with a KV store and leases, over QUIC). You have your own scratch git worktree of the repository at /tmp/seed/{ID} (work ONLY there; never touch /repo or /verif, and do not read anything under /verif). Output goes to /tmp/seed/{ID}.out/ .
 
@@ -32,7 +33,7 @@ Write into /tmp/seed/{ID}.out/m1/ and /tmp/seed/{ID}.out/m2/ :
 When finished leave the worktree clean (git checkout -- . ; no stray files) and reply with a short summary of the two changes and the exact commands you ran. If you cannot find a second change that passes the existing tests, deliver one and say so.""")
 if BATCH2:
     import glob, os
-    text = text.replace('"m1"', '"m3"').replace('"m2"', '"m4"').replace('/m1/', '/m3/').replace('/m2/', '/m4/').replace('m1, m2', 'm3, m4').replace('(m2 must be', '(m4 must be').replace('stacked on m1', 'stacked on m3')
+    text = text.replace('"m1"', f'"{A}"').replace('"m2"', f'"{B}"').replace('/m1/', f'/{A}/').replace('/m2/', f'/{B}/').replace('m1, m2', f'{A}, {B}').replace('(m2 must be', f'({B} must be').replace('stacked on m1', f'stacked on {A}')
     known = []
     for d in sorted(glob.glob(f'/verif/seeded/{ID}_m*')):
         try:
